@@ -371,3 +371,9 @@ mod test {
         assert_eq!(observers.len(), 0);
     }
 }
+
+// Read-only accessors for the verification harness in /verif; compiled only
+// with `--cfg coap_lite_verif`.
+#[cfg(coap_lite_verif)]
+#[path = "verif_hooks_observe.rs"]
+mod verif_hooks;
